@@ -45,25 +45,25 @@ def small_ops(ctx):
     q = ctx.quick
     s1, phi0, sigma, triv = [], [], [], []
     # S1(x, y, c): every y in [1, sqrt(x) + 2], every c <= 8 (the theorem needs nothing else; c > pi(y) included)
-    for x in range(1, (260 if q else 2000) + 1):
+    for x in range(1, (600 if q else 2000) + 1):
         sq = gen.isqrt(x)
         for y in range(1, sq + 3):
             for c in range(0, 9):
                 s1.append("S1 64 %d %d %d 1" % (x, y, c))
     # Phi0(x, y, z, k): every 1 <= y <= z <= sqrt(x) + 1, every k <= 8
-    for x in range(1, (110 if q else 700) + 1):
+    for x in range(1, (200 if q else 700) + 1):
         sq = gen.isqrt(x)
         for y in range(1, sq + 2):
             for z in range(y, sq + 2):
                 for k in range(0, 9):
                     phi0.append("Phi0 64 %d %d %d %d 1" % (x, y, z, k))
     # Sigma(x, y): every y in [x13, sqrt(x) + 2] (y < x13 makes the real code read pi[] beyond its table)
-    for x in range(1, (2500 if q else 20000) + 1):
+    for x in range(1, (4000 if q else 20000) + 1):
         x13, sq = gen.iroot(3, x), gen.isqrt(x)
         for y in range(max(x13, 1), sq + 3):
             sigma.append("Sigma 64 %d %d 1" % (x, y))
     # S2_trivial(x, y, z, c): y in [1, sqrt(x) + 2]; z = x / y (Deleglise-Rivat) and larger z; 1 <= c <= min(8, pi(y) + 1)
-    for x in range(1, (420 if q else 2000) + 1):
+    for x in range(1, (800 if q else 2000) + 1):
         sq = gen.isqrt(x)
         for y in range(1, sq + 3):
             z0 = x // y
@@ -208,3 +208,58 @@ def streams(ctx):
     sts.append(Stream("leafloops_sampled_definitions", defs, oracle=True, nontrivial=_nontrivial,
                       classify=_classify, timeout=1800))
     return sts
+
+
+def c03_streams(ctx):
+    """C03: S1 / Phi0 under REAL teams of more than one thread (ideal_num_threads(y, threads, 1e6) > 1 needs y > 1e6):
+    the same (x, y, c) with several `threads` values must give the value of the mirror, which PcProps/C03Leaf.lean proves
+    independent of the distribution of the `omp for` iterations."""
+    rng = ctx.rng
+    ops = []
+    for x in ((10 ** 13 + rng.randint(0, 10 ** 6), 2 ** 62 - rng.randint(0, 999)) if ctx.quick else
+              (10 ** 13 + rng.randint(0, 10 ** 6), 10 ** 15 + 37, 2 ** 62 - rng.randint(0, 999), 2 ** 63 - 1)):
+        y = rng.randint(2 * 10 ** 6 + 1, 35 * 10 ** 5)
+        z = y + rng.randint(0, 10 ** 6)
+        c = rng.choice((8, 8, rng.randint(0, 7)))
+        for t in (1, 2, 4) if ctx.quick else (1, 2, 3, 4, 16):
+            ops.append("S1 64 %d %d %d %d" % (x, y, c, t))
+            ops.append("Phi0 128 %d %d %d %d %d" % (x, y, z, c, t))
+    # small y: the team is clamped to one thread whatever is asked for
+    for x in gen.structured_x(rng, 10 ** 4, 10 ** 10, 20 if ctx.quick else 200):
+        y, z = gen.gourdon_yz(rng, x)
+        for t in (1, 7, 64):
+            ops.append("S1 64 %d %d %d %d" % (x, y, gen.get_c(y), t))
+            ops.append("Phi0 64 %d %d %d %d %d" % (x, y, z, gen.get_k(x), t))
+    return [Stream("leafloops_teams", ops, oracle=True, model_ops=_rename(LOOP), nontrivial=_nontrivial,
+                   classify=lambda op, r: "%s/threads=%s" % (op.split()[0], op.split()[-1]), timeout=1800)]
+
+
+def c11_streams(ctx):
+    """C11: the int64_t and the int128_t instantiation of S1 / Phi0 / Sigma / S2_trivial on the same arguments (both
+    must print the mirror's value), and the int128_t one alone beyond 2^63."""
+    rng = ctx.rng
+    ops = []
+    for x in gen.structured_x(rng, 100, 10 ** 12, 80 if ctx.quick else 1500):
+        yd = min(gen.dr_y(rng, x), gen.iroot(3, x) * 30)
+        y, z = gen.gourdon_yz(rng, x)
+        y = min(y, max(gen.iroot(3, x) * 30, 1))
+        z = max(min(z, y * 4), y)
+        c, k = gen.get_c(yd), gen.get_k(x)
+        t = rng.choice((1, 2, 16))
+        for w in ("64", "128"):
+            ops += ["S1 %s %d %d %d %d" % (w, x, yd, c, t), "Phi0 %s %d %d %d %d %d" % (w, x, y, z, k, t),
+                    "Sigma %s %d %d %d" % (w, x, y, t), "sigma_parts %s %d %d" % (w, x, y),
+                    "S2_trivial %s %d %d %d %d %d" % (w, x, yd, x // yd, max(c, 1), t)]
+    xs = [2 ** 63 + d for d in (-2, -1)] + [2 ** 63 + rng.randint(0, 10 ** 9), 10 ** 19 + 1, 10 ** 20 + rng.randint(0, 999)]
+    if not ctx.quick:
+        xs += [10 ** 21 + 3, 10 ** 22, 2 ** 80 + 5, 10 ** 25]
+    for x in xs:
+        x13 = gen.iroot(3, x)
+        y = min(x13 + rng.randint(1, 1000), 3 * 10 ** 6)
+        z = y + rng.randint(0, y)
+        ws = ("64", "128") if x < 2 ** 63 else ("128",)
+        for w in ws:
+            ops += ["S1 %s %d %d 8 2" % (w, x, y), "Phi0 %s %d %d %d 8 2" % (w, x, y, z),
+                    "s1thread %s %d %d 8 1 9 23" % (w, x, y), "phi0thread %s %d %d %d 8 -1 12 %d" % (w, x, y, z, 37 * 41)]
+    return [Stream("leafloops_wide_vs_narrow", ops, oracle=True, model_ops=_rename(LOOP), nontrivial=_nontrivial,
+                   classify=_classify, timeout=1800)]
